@@ -35,9 +35,12 @@ def main():
         hit = [l for l in r.stdout.splitlines() if l.startswith("VIOLATION")]
         got = sorted({l.split("obligation=")[1].split()[0] for l in hit if "obligation=" in l})
         exp = sorted(m["expect"])
-        ok = r.returncode == 1 and all(e in got for e in exp)
+        if m.get("must_pass"):      # a property-preserving edit: any VIOLATION here is a false alarm of ours
+            ok = r.returncode == 0 and not hit
+        else:
+            ok = r.returncode == 1 and all(e in got for e in exp)
         replayed = sum(1 for l in hit if "no-failing-input-found" not in l)
-        rows.append((m["name"], m["property"], "CAUGHT" if ok else "MISSED(exit=%d got=%s)" % (r.returncode, got),
+        rows.append((m["name"], m["property"], ("QUIET-AS-REQUIRED" if m.get("must_pass") else "CAUGHT") if ok else "MISSED(exit=%d got=%s)" % (r.returncode, got),
                      "expected %s; got %s; %d with failing input replayed on real code" % (exp, got, replayed), dt))
         print(rows[-1], flush=True)
     shutil.rmtree(SCR, ignore_errors=True)
@@ -56,7 +59,7 @@ def main():
         f.write("| mutant | property | verdict | detail | wall |\n| --- | --- | --- | --- | --- |\n")
         for n in sorted(old):
             f.write("| " + " | ".join(old[n]) + " |\n")
-    bad = [r for r in rows if r[2] != "CAUGHT"]
+    bad = [r for r in rows if r[2] not in ("CAUGHT", "QUIET-AS-REQUIRED")]
     sys.exit(1 if bad else 0)
 
 if __name__ == "__main__":
